@@ -100,7 +100,7 @@ PLANS = {
     ),
     'C11': dict(
         module='RucteProps.C11',
-        theorems=[],
+        theorems=['Ructe.C11.template_no_panic', 'Ructe.C11.template_err_in_range', 'Ructe.C11.template_accepts_whole', 'Ructe.C11.diag_in_range', 'Ructe.C11.noneOf_panics_witness', 'Ructe.C11.showErrors_pinned_panics_witness'],
         runs=[dict(suite='parse', mix='examples,mutate,tokens,nesting,exhaustive,structured',
                    n=dict(quick=6000, thorough=1000000), projection='accept', tags=['C11'])],
         correspondence='accept / reject / panic of template(), and for a rejection the line number, echoed line and caret column of every diagnostic, vs Ructe.template + Ructe.showErrors (message wording is not compared)',
@@ -125,7 +125,7 @@ PLANS = {
     ),
     'C05': dict(
         module='RucteProps.C05',
-        theorems=[],
+        theorems=['Ructe.C05.expression_sound', 'Ructe.C05.exprInsideParens_sound', 'Ructe.C05.quotedString_sound', 'Ructe.C05.expression_nonempty', 'Ructe.C05.expression_no_panic', 'Ructe.C05.emit_verbatim', 'Ructe.C05.slash_pinned_witness'],
         runs=[dict(suite='sub', n=dict(quick=20000, thorough=600000), projection='identity', tags=['C05']),
               dict(suite='parse', mix='structured,examples', n=dict(quick=2000, thorough=60000), projection='body', tags=['C05'])],
         correspondence='consumed length / value / error list of expression, expr_inside_parens, quoted_string, rust_comment and the other named sub-parsers, and the syntax tree + body code of whole templates, vs the Lean transcription',
@@ -148,7 +148,7 @@ PLANS = {
     ),
     'C15': dict(
         module='RucteProps.C15',
-        theorems=[],
+        theorems=['Ructe.C15.spacelike_complete', 'Ructe.C15.layout_irrelevant_at_slot', 'Ructe.C15.comment_complete', 'Ructe.C15.multispace0_complete', 'Ructe.C15.spacelike_total', 'Ructe.C15.pinned_comment_counterexample'],
         runs=[dict(suite='parse', mix='structured', n=dict(quick=5000, thorough=150000), projection='text', tags=['C15'])],
         correspondence='generated code, byte for byte, of canonical and perturbed prints of the same source tree vs the model\'s single answer',
         rule='every structured template printed canonically and twice with random admissible layouts (white space, LF, CRLF, tabs, 8 comment shapes incl. `**@` endings) at every slot kind; non-trivial = distinct accepted syntax trees',
